@@ -541,12 +541,17 @@ def real_openssl_stage(rep, tier, seed):
                 if c.returncode != 0:
                     return [("realssl", "the real-OpenSSL regression %s does not build against /repo's current tree:\n%s" % (name, c.stderr[-3000:]))]
             for a in argsets:
-                try:
-                    p = subprocess.run([exe] + a, cwd=work, capture_output=True, text=True, timeout=60)
-                    ok = p.returncode == 0 and "PASS" in p.stdout
-                    txt = (p.stdout + p.stderr)[-1500:]
-                except subprocess.TimeoutExpired:
-                    ok, txt = False, "timed out after 60 s"
+                # real sockets and threads: a loaded machine can make one run miss its 5 s deadline, a genuine defect fails every time
+                ok, txt = False, ""
+                for attempt in range(3):
+                    try:
+                        p = subprocess.run([exe] + a, cwd=work, capture_output=True, text=True, timeout=60)
+                        ok = p.returncode == 0 and "PASS" in p.stdout
+                        txt = (p.stdout + p.stderr)[-1500:]
+                    except subprocess.TimeoutExpired:
+                        ok, txt = False, "timed out after 60 s"
+                    if ok:
+                        break
                 runs.append("%s %s: %s" % (name, " ".join(a), "PASS" if ok else "FAIL"))
                 if not ok:
                     out.append(("realssl", "# real OpenSSL, real sockets: %s %s fails on /repo's current tree\n# build: g++ -std=c++17 -DSOCKPUPPET_WITH_TLS -I/repo/include -I/repo/src "
